@@ -132,5 +132,21 @@ Fixpoint join_comma (l : list str) : str :=
 Definition sig_text (names reprs : list str) (ts : list tok) : str :=
   [40%N] ++ join_comma (map (tok_text names reprs) ts) ++ [41%N].
 
+(* ---- interface.py class Element: the read accessors of tagged values, on one tag.
+     getTaggedValue / getDirectTaggedValue : d[tag], KeyError when absent (or no dict yet)
+     queryTaggedValue / queryDirectTaggedValue (tag) : d.get(tag, None)
+     the same with an explicit default object     : d.get(tag, default)
+   Results are codes: an object index, or R_KEYERROR / R_DEFAULT (the default object that was
+   passed came back) / R_NONE (the answer is None; [none] is the index of None in the table). *)
+Definition R_KEYERROR := 1000.
+Definition R_DEFAULT := 1001.
+Definition R_NONE := 1003.
+Definition as_none (none : nat) (v : dflt) : nat := if Nat.eqb v none then R_NONE else v.
+Definition tag_reads (d : list (name * dflt)) (none : nat) (t : name) : list nat :=
+  match dict_get d t with
+  | Some v => [v; v; as_none none v; as_none none v; v; v]
+  | None => [R_KEYERROR; R_KEYERROR; R_NONE; R_NONE; R_DEFAULT; R_DEFAULT]
+  end.
+
 (* ---- decidable equalities used by the Tie *)
 Definition pair_eqb (a b : name * dflt) : bool := Nat.eqb (fst a) (fst b) && Nat.eqb (snd a) (snd b).
